@@ -13,9 +13,11 @@ Proof.
 Qed.
 Lemma memN_false : forall a l, memN a l = false <-> ~ In a l.
 Proof.
-  intros a l. rewrite <- memN_In. destruct (memN a l); split; intros H; try reflexivity; try discriminate.
-  - intros H'. discriminate.
+  intros a l. rewrite <- memN_In. destruct (memN a l); split; intros H.
+  - discriminate.
   - exfalso. apply H. reflexivity.
+  - intros H'. discriminate.
+  - reflexivity.
 Qed.
 Lemma inter_nonempty_spec : forall a b, inter_nonempty a b = true <-> exists x, In x a /\ In x b.
 Proof.
@@ -133,23 +135,38 @@ Proof.
   destruct (search_filter_entry i rel e); reflexivity.
 Qed.
 
+Lemma o2_char : forall i u e a, i_origin i = OUser u ->
+  (In a (allow_of (search_oauth2_filter_entry i e)) <-> rule_oauth2 u e && memN a O2_ATTRS = true).
+Proof.
+  intros i u e a Ho. unfold search_oauth2_filter_entry, rule_oauth2. rewrite Ho.
+  destruct (u_uuid u =? UUID_ANON); cbn [negb andb allow_of In]; [split; [intros [] | discriminate]|].
+  destruct (memN C_OAUTH2_RS (e_class e) && existsb (fun k => mo_contains (u_mo u) k) (e_o2 e));
+    cbn [andb allow_of]; [symmetry; apply memN_In | split; [intros [] | discriminate]].
+Qed.
+Lemma app_char : forall i u e a, i_origin i = OUser u ->
+  (In a (allow_of (search_applications_filter_entry i e)) <-> rule_application u e && memN a APP_ATTRS = true).
+Proof.
+  intros i u e a Ho. unfold search_applications_filter_entry, rule_application. rewrite Ho.
+  destruct (u_uuid u =? UUID_ANON); cbn [negb andb allow_of In]; [split; [intros [] | discriminate]|].
+  destruct (memN C_APPLICATION (e_class e) && match e_linked e with Some g => mo_contains (u_mo u) g | None => false end);
+    cbn [andb allow_of]; [symmetry; apply memN_In | split; [intros [] | discriminate]].
+Qed.
+Lemma sync_char : forall i u e a, i_origin i = OUser u ->
+  (In a (allow_of (search_sync_account_filter_entry i e)) <-> rule_sync u e && memN a SYNC_ATTRS = true).
+Proof.
+  intros i u e a Ho. unfold search_sync_account_filter_entry, rule_sync. rewrite Ho.
+  destruct (memN C_SYNC_OBJECT (u_class u) && memN C_ACCOUNT (u_class u)); cbn [andb allow_of In];
+    [|split; [intros [] | discriminate]].
+  destruct (memN C_SYNC_ACCOUNT (e_class e)); cbn [andb allow_of In]; [|split; [intros [] | discriminate]].
+  destruct (match u_syncparent u with Some p => p =? e_id e | None => false end);
+    cbn [andb allow_of]; [symmetry; apply memN_In | split; [intros [] | discriminate]].
+Qed.
 Lemma builtin_char : forall i u e a, i_origin i = OUser u ->
   (In a (builtin_allow i e) <-> builtin_read u e a = true).
 Proof.
   intros i u e a Ho. unfold builtin_allow, builtin_read.
-  unfold search_oauth2_filter_entry, search_applications_filter_entry, search_sync_account_filter_entry.
-  rewrite Ho. unfold rule_oauth2, rule_application, rule_sync.
-  rewrite !in_app_iff, !orb_true_iff, !andb_true_iff, !memN_In.
-  destruct (u_uuid u =? UUID_ANON); cbn [negb allow_of];
-  destruct (memN C_OAUTH2_RS (e_class e)); cbn [andb allow_of];
-  destruct (existsb (fun k => mo_contains (u_mo u) k) (e_o2 e)); cbn [andb allow_of];
-  destruct (memN C_APPLICATION (e_class e)); cbn [andb allow_of];
-  destruct (match e_linked e with Some g => mo_contains (u_mo u) g | None => false end); cbn [andb allow_of];
-  destruct (memN C_SYNC_OBJECT (u_class u)); cbn [andb allow_of];
-  destruct (memN C_ACCOUNT (u_class u)); cbn [andb allow_of];
-  destruct (memN C_SYNC_ACCOUNT (e_class e)); cbn [andb allow_of];
-  destruct (match u_syncparent u with Some p => p =? e_id e | None => false end); cbn [andb allow_of In];
-  intuition discriminate.
+  rewrite !in_app_iff, !orb_true_iff, (o2_char i u e a Ho), (app_char i u e a Ho), (sync_char i u e a Ho).
+  cbn [In]. tauto.
 Qed.
 
 (* ------------------------------------------------------------------ profiles *)
@@ -318,8 +335,8 @@ Proof.
   assert (Hd : forall rel q e, entry_allowed i rel q e = false).
   { intros rel q e. unfold entry_allowed. rewrite apply_shape. unfold search_filter_entry.
     destruct (reader_none i Hr Hn) as [Ho | [u [Ho Hs]]]; rewrite Ho; [reflexivity | rewrite Hs; reflexivity]. }
-  unfold search, filter_entries. destruct (fattrs (snd (wrap m f))); [reflexivity|].
-  induction (be_search (fst (wrap m f)) es) as [|e l IH]; [reflexivity|].
+  unfold search, filter_entries. destruct (fattrs (snd (wrap m f))) as [|a0 q0]; [reflexivity|].
+  induction (be_search (fst (wrap m f)) es) as [|e l0 IH]; [reflexivity|].
   cbn [filter]. rewrite Hd. exact IH.
 Qed.
 
@@ -457,7 +474,7 @@ Proof.
 Qed.
 Lemma bool_ok_true_of_exists : forall es acps i m f, (forall e, In e es -> wf_entry e = true) ->
   exists_ i acps m f es = true -> bool_ok es acps i m f true = true.
-Proof. intros es acps i m f Hwf H. rewrite <- H. apply bool_ok_run. exact Hwf. Qed.
+Proof. intros es acps i m f Hwf H. pose proof (bool_ok_run es acps i m f Hwf) as P. rewrite H in P. exact P. Qed.
 
 Lemma pcheck_q_run : forall es acps i k f, (forall e, In e es -> wf_entry e = true) ->
   pcheck_q es acps i (mkQ k f (run es acps i k f)) = true.
@@ -483,4 +500,132 @@ Proof.
   apply forallb_forall. intros [k f o] Hin.
   assert (Ho := proj1 (forallb_forall _ _) Hq _ Hin). cbn [q_kind q_f q_out] in Ho.
   apply outcome_eqb_eq in Ho. rewrite <- Ho. apply pcheck_q_run. exact Hwf'.
+Qed.
+
+(* ================================================================== refinement to the declarative rules *)
+Lemma bool_iff_eq : forall a b : bool, (a = true <-> b = true) -> a = b.
+Proof. intros [] [] [H1 H2]; try reflexivity; [symmetry; apply H1; reflexivity | apply H2; reflexivity]. Qed.
+Lemma filter_filter : forall {A} (p q : A -> bool) l,
+  filter p (filter q l) = filter (fun x => q x && p x) l.
+Proof.
+  intros A p q l. induction l as [|x l IH]; [reflexivity|]. cbn [filter].
+  destruct (q x); cbn [andb filter]; [destruct (p x); rewrite IH; reflexivity | exact IH].
+Qed.
+Lemma filter_false : forall {A} (l : list A), filter (fun _ => false) l = [].
+Proof. induction l as [|x l IH]; [reflexivity | exact IH]. Qed.
+Lemma filter_pointwise : forall {A} (p q : A -> bool) l, (forall x, p x = q x) -> filter p l = filter q l.
+Proof.
+  intros A p q l H. induction l as [|x l IH]; [reflexivity|]. cbn [filter]. rewrite H, IH. reflexivity.
+Qed.
+
+(* what a reader is shown, stated from the grant rules only *)
+Definition spec_reveals (u : user) (acps : list acp) (m : mode) (f : filt) (e : entry) : bool :=
+  negb (is_nil (fattrs (snd (wrap m f))))
+  && ematches e (fst (wrap m f))
+  && forallb (may_read u acps e) (fattrs (snd (wrap m f))).
+Definition spec_release (u : user) (acps : list acp) (req : option (list N)) (e : entry) : N * list N :=
+  (e_id e, filter (fun a => requested req a && may_read u acps e a) (e_attrs e)).
+
+Lemma entry_allowed_spec : forall i u acps q e, reader i = Some u ->
+  entry_allowed i (related i acps None) q e = forallb (may_read u acps e) q.
+Proof.
+  intros i u acps q e Hr. apply bool_iff_eq. rewrite (entry_allowed_reader i u acps q e Hr), forallb_forall. tauto.
+Qed.
+
+Lemma search_spec : forall i u acps m f es, reader i = Some u ->
+  search i acps m f es = filter (spec_reveals u acps m f) es.
+Proof.
+  intros i u acps m f es Hr. unfold search, filter_entries, spec_reveals, be_search.
+  destruct (fattrs (snd (wrap m f))) as [|a q] eqn:Ef.
+  - cbn [is_nil negb andb]. rewrite filter_false. reflexivity.
+  - rewrite filter_filter. apply filter_pointwise. intros e. cbn [is_nil negb andb].
+    rewrite (entry_allowed_spec i u acps (a :: q) e Hr). reflexivity.
+Qed.
+
+Lemma release_spec : forall i u acps req e, reader i = Some u ->
+  filter (fun a => requested req a && memN a (allow_set i u acps req e)) (e_attrs e)
+  = filter (fun a => requested req a && may_read u acps e a) (e_attrs e).
+Proof.
+  intros i u acps req e Hr. apply filter_pointwise. intros a.
+  destruct (requested req a) eqn:Eq; cbn [andb]; [|reflexivity].
+  apply bool_iff_eq. rewrite memN_In. split.
+  - apply allow_set_sound. exact Hr.
+  - intros Hm. apply allow_set_complete; assumption.
+Qed.
+
+Lemma search_ext_spec : forall i u acps m f req es, reader i = Some u ->
+  search_ext i acps m f req es
+  = Some (map (spec_release u acps req) (filter (spec_reveals u acps m f) es)).
+Proof.
+  intros i u acps m f req es Hr. rewrite (search_ext_reader i u acps m f req es Hr).
+  rewrite (search_spec i u acps m f es Hr). f_equal. apply map_ext. intros e.
+  unfold spec_release. rewrite (release_spec i u acps req e Hr). reflexivity.
+Qed.
+
+Lemma exists_spec : forall i u acps m f es, reader i = Some u ->
+  exists_ i acps m f es = existsb (spec_reveals u acps m f) es.
+Proof.
+  intros i u acps m f es Hr. destruct (reader_inv i u Hr) as [Ho _]. unfold exists_. rewrite Ho.
+  change (filter_entries i acps (snd (wrap m f)) (be_search (fst (wrap m f)) es)) with (search i acps m f es).
+  rewrite (search_spec i u acps m f es Hr). apply bool_iff_eq. rewrite negb_true_iff, is_nil_false, existsb_exists.
+  split; intros [e H]; exists e; [apply filter_In in H | apply filter_In]; exact H.
+Qed.
+
+Lemma search_ext_nonuser : forall i acps m f req es, (forall u, i_origin i <> OUser u) ->
+  search_ext i acps m f req es = None.
+Proof.
+  intros i acps m f req es H. unfold search_ext. destruct (i_origin i) as [u| |r]; [exfalso; apply (H u); reflexivity | reflexivity..].
+Qed.
+
+Lemma search_hidden : forall i acps f es e, wf_entry e = true ->
+  In e (search i acps MHidden f es) -> is_hidden e = false.
+Proof.
+  intros i acps f es e Hwf H. apply search_In in H as [_ [Hm _]]. cbn [wrap fst] in Hm.
+  apply (ignore_hidden_match e f Hwf) in Hm as [Hh _]. exact Hh.
+Qed.
+Lemma search_recycle : forall i acps f es e, wf_entry e = true ->
+  In e (search i acps MRecycle f es) -> memN C_RECYCLED (e_class e) = true.
+Proof.
+  intros i acps f es e Hwf H. apply search_In in H as [_ [Hm _]]. cbn [wrap fst] in Hm.
+  apply (recycled_match e f Hwf) in Hm as [Hh _]. exact Hh.
+Qed.
+
+(* fattrs of the LDAP wrappers always name `class` *)
+Lemma ldap_filter_names_class : forall f ext, In A_CLASS (fattrs (ldap_search_filter f ext)).
+Proof.
+  intros f ext. unfold ldap_search_filter. destruct ext as [x|]; cbn [fattrs flat_map ldap_excl leaf_class];
+    rewrite ?in_app_iff; cbn [In]; tauto.
+Qed.
+Lemma ematch_and_in : forall e l s g, ematches e (FAnd l s) = true -> In g l -> ematches e g = true.
+Proof.
+  intros e l s g H Hin. unfold ematches in *. cbn [ematch] in H.
+  apply (proj1 (forallb_forall _ _) H g Hin).
+Qed.
+
+Lemma search_ext_elem : forall i u acps m f req es l id attrs,
+  reader i = Some u -> search_ext i acps m f req es = Some l -> In (id, attrs) l ->
+  exists e, In e es /\ e_id e = id /\ spec_reveals u acps m f e = true
+            /\ attrs = filter (fun a => requested req a && may_read u acps e a) (e_attrs e).
+Proof.
+  intros i u acps m f req es l id attrs Hr Hs Hin.
+  rewrite (search_ext_spec i u acps m f req es Hr) in Hs. injection Hs as <-.
+  apply in_map_iff in Hin as [e [He Hin]]. unfold spec_release in He. injection He as <- <-.
+  apply filter_In in Hin as [Hin Hs]. exists e. repeat split; assumption.
+Qed.
+Lemma spec_reveals_inv : forall u acps m f e, spec_reveals u acps m f e = true ->
+  ematches e (fst (wrap m f)) = true
+  /\ forall a, In a (fattrs (snd (wrap m f))) -> may_read u acps e a = true.
+Proof.
+  intros u acps m f e Hs. unfold spec_reveals in Hs.
+  apply andb_true_iff in Hs as [Hs H3]. apply andb_true_iff in Hs as [_ H2].
+  split; [exact H2 | apply forallb_forall; exact H3].
+Qed.
+Lemma ldap_filter_match : forall e f ext, ematches e (ldap_search_filter f ext) = true -> ematches e f = true.
+Proof.
+  intros e f ext H. unfold ldap_search_filter in H.
+  destruct ext as [x|]; apply (ematch_and_in e _ None f H); left; reflexivity.
+Qed.
+Lemma ldap_filter_attrs : forall f ext a, In a (fattrs f) -> In a (fattrs (ldap_search_filter f ext)).
+Proof.
+  intros f ext a H. unfold ldap_search_filter. destruct ext; cbn [fattrs flat_map]; apply in_app_iff; left; exact H.
 Qed.
